@@ -502,6 +502,18 @@ func (m *storageModel) compare(st *hostsfile.DefaultStorage) error {
 			}
 		}
 	}
+	for low := range m.addrs {
+		// Near misses of a stored name are other names: a query for one of
+		// them finds what was stored under exactly that name, usually nothing.
+		for _, q := range []string{low + ".", strings.TrimSuffix(low, "."), low + " ", " " + low, strings.TrimSpace(low), "." + low} {
+			if q == low {
+				continue
+			}
+			if got, want := st.ByName(q), m.addrs[model.ASCIILower(q)]; !slices.Equal(got, want) {
+				return fmt.Errorf("ByName(%q) = %v, want %v (%q is stored; the query is another name)", q, got, want, low)
+			}
+		}
+	}
 	for a, spellings := range m.names {
 		// The exact stored spellings must find their address.
 		for _, n := range spellings {
@@ -638,7 +650,11 @@ var (
 	namePool = []string{"host", "HOST", "Host", "host.example", "Host.Example", "HOST.EXAMPLE", "a", "A", "b", "пример.рф", "例え.jp", "x-y.z", "X-Y.Z", "localhost",
 		// Non-ASCII cased letters: only ASCII-case variants of one another,
 		// so ASCII and Unicode folding agree on the whole pool.
-		"Ünï.example", "ÜNï.EXAMPLE", "ПРИМЕР.com", "ПРИМЕР.COM", "Straße.example"}
+		"Ünï.example", "ÜNï.EXAMPLE", "ПРИМЕР.com", "ПРИМЕР.COM", "Straße.example",
+		// Names that differ from others of the pool by one trailing dot or a
+		// surrounding blank (direct Add takes names as they are: these are
+		// other names, with their own entries).
+		"host.", "HOST.example.", "a.", " a", "localhost."}
 )
 
 func checkStorage(c StorageCase) error {
